@@ -188,6 +188,7 @@ func (e *ExecutionEngine) Execute(ctx context.Context, operation *graphql.Reques
 				astvalidation.DeferStreamOnValidOperations(),
 				astvalidation.DeferStreamHaveUniqueLabels(),
 				astvalidation.DirectivesAreInValidLocations(),
+				astvalidation.DirectivesAreUniquePerLocation(),
 				astvalidation.StreamAppliedToListFieldsOnly()),
 		)
 		if err != nil {
